@@ -11,6 +11,7 @@ package simrt
 import (
 	"container/heap"
 	"crypto/sha256"
+	"encoding/binary"
 	"encoding/hex"
 	"fmt"
 	"hash"
@@ -186,11 +187,14 @@ func (s *Sim) Config() Config     { return s.cfg }
 // Logf appends to the event log (digest always, text only when tracing). It never draws
 // from a PRNG and never reads a clock other than the simulated one.
 func (s *Sim) Logf(format string, a ...any) {
+	var tb [8]byte
+	binary.LittleEndian.PutUint64(tb[:], uint64(s.Now()))
+	s.digest.Write(tb[:])
 	if s.cfg.Trace {
-		line := fmt.Sprintf("%12d ", int64(s.Now()/time.Microsecond)) + fmt.Sprintf(format, a...)
-		s.trace = append(s.trace, line)
+		line := fmt.Sprintf(format, a...)
 		s.digest.Write([]byte(line))
 		s.digest.Write([]byte{'\n'})
+		s.trace = append(s.trace, fmt.Sprintf("%12d ", int64(s.Now()/time.Microsecond))+line)
 		return
 	}
 	fmt.Fprintf(s.digest, format, a...)
